@@ -23,9 +23,12 @@ CLAIMED = {
     "C11": (True, "exploration", "DESIGN.md §3 C11",
             "Same drivers with reply/error types that borrow &str from the receive buffer; the harness holds every yielded item and re-reads all of them after each further item and at the end, for reply sizes inside 256 bytes / one growth step / several and deliveries in one read / one per reply / random. The violation class is computed from the history (overwritten or reallocated by a transport read issued while the item was held = known finding F4; changed without any transport read = always an alarm).",
             "Buffer growth is observed at the read seam (end address of the slice, or a read that fills its window); held data is only dereferenced when no growth was observed since it was yielded."),
+    "C17": (True, "exploration", "DESIGN.md §3 C17",
+            "Hook-lowered limit L (1..64 KiB; thorough adds runs at the production 100 MiB): every size within +-3 of every multiple of 256 up to L+512, inbound (valid frame, unterminated filler; three chunkings) and outbound (empty buffer, after small enqueued messages), plus seeded sizes/chunkings and pipelined bursts of small frames. Oracle: accept band / refuse band with Error::BufferOverflow, nothing of a refused message on the transport, connection usable afterwards, bytes consumed before an overflow <= L+256.",
+            "size == L-1 is a don't-care (the statement does not say whether the terminator counts). The limit value is set through the cfg(zlink_verif) hook; the comparison sites are the production ones."),
 }
 
-PLANNED = {"C08", "C09", "C10", "C17", "C18", "C19", "C20"}
+PLANNED = {"C08", "C09", "C10", "C18", "C19", "C20"}
 
 NOT_BUILT_REASON = "claimed in DESIGN.md but its check is not built yet in this commit"
 
